@@ -178,12 +178,12 @@ def leaves(prog: Program, fi: FuncInfo, expr: ast.AST):
 
 
 def every_origin(prog: Program, fi: FuncInfo, expr: ast.AST, ok: Callable[[ast.AST, FuncInfo], bool],
-                 allow_const: bool = True) -> Tuple[bool, List[str]]:
+                 allow_const: bool = True, falsy_ok: bool = False) -> Tuple[bool, List[str]]:
     """True iff every origin (backward slice through local assignments and
     conditional expressions) of `expr` satisfies ok(leaf).  Returns offending
     leaf texts."""
     bad = []
-    for leaf, _path in prog.origins(fi, expr, through=lambda e: isinstance(e, ast.AST) and not isinstance(e, (ast.Name, ast.IfExp, ast.NamedExpr)) and ok(e, fi)):
+    for leaf, _path in prog.origins(fi, expr, prune_falsy=falsy_ok, through=lambda e: isinstance(e, ast.AST) and not isinstance(e, (ast.Name, ast.IfExp, ast.NamedExpr)) and ok(e, fi)):
         if isinstance(leaf, _Wrapped):
             bad.append(f"{leaf.how} of {T(leaf.expr, 60)}")
             continue
@@ -382,3 +382,129 @@ def check_forwarding(prog: Program, chk, rule: str) -> None:
         chk.ob(rule, f"{m.short}|forwards self.__dict__ through prune_unknown_kwargs", ok, where(m),
                detail=f"{consumer}(..., **prune_unknown_kwargs(self.__dict__, ...))",
                message=f"{m.short} no longer forwards the compiler's options to {consumer} by name")
+
+
+# ---- propositional entailment over guard conditions ------------------------------
+
+def _eval_bool(e: ast.AST, atomize, env: dict):
+    """Evaluate expression e to a bool under env (atom key -> bool).  Leaves that
+    atomize() does not know are looked up as opaque atoms keyed by their text."""
+    if isinstance(e, ast.BoolOp):
+        vals = [_eval_bool(v, atomize, env) for v in e.values]
+        return all(vals) if isinstance(e.op, ast.And) else any(vals)
+    if isinstance(e, ast.UnaryOp) and isinstance(e.op, ast.Not):
+        return not _eval_bool(e.operand, atomize, env)
+    if isinstance(e, ast.Constant):
+        return bool(e.value)
+    a = atomize(e)
+    if a is not None:
+        k, pos = a
+        return env[k] if pos else not env[k]
+    return env[("opaque", T(e))]
+
+
+def _collect_atoms(e: ast.AST, atomize, out: set):
+    if isinstance(e, ast.BoolOp):
+        for v in e.values:
+            _collect_atoms(v, atomize, out)
+    elif isinstance(e, ast.UnaryOp) and isinstance(e.op, ast.Not):
+        _collect_atoms(e.operand, atomize, out)
+    elif isinstance(e, ast.Constant):
+        pass
+    else:
+        a = atomize(e)
+        out.add(a[0] if a is not None else ("opaque", T(e)))
+
+
+def entails(cond_list: Sequence[Cond], atomize, goal, constraints=None, max_atoms: int = 14, goal_atoms=()) -> bool:
+    """Do the guards (each `test == polarity`) propositionally entail goal(env)?
+    atomize(expr) -> (atom_key, positive) | None names the atoms the rule knows;
+    constraints(env) -> bool excludes impossible assignments.  Exhaustive over
+    all assignments of the atoms that occur (unknown leaves are free atoms)."""
+    import itertools
+    atoms: set = set()
+    for c in cond_list:
+        _collect_atoms(c.test, atomize, atoms)
+    atoms.update(goal_atoms)  # atoms the goal talks about are never left implicit
+    atoms = sorted(atoms, key=str)
+    if len(atoms) > max_atoms:
+        raise AnalysisError("too many atoms in guard formula")
+    for vals in itertools.product([False, True], repeat=len(atoms)):
+        env = _Env(dict(zip(atoms, vals)))
+        if constraints is not None and not constraints(env):
+            continue
+        if all(_eval_bool(c.test, atomize, env) == bool(c.polarity) for c in cond_list):
+            if not goal(env):
+                return False
+    return True
+
+
+class _Env(dict):
+    """Atoms that do not occur in the guards are unconstrained: goal() sees them
+    as False *and* the entailment must hold either way, so rules should only
+    query atoms via .get(name, default)."""
+
+    def __missing__(self, k):
+        return False
+
+
+# ---- call-site specialisation: constant propagation through a function prefix -----
+
+def fold_body(prog: Program, fi: FuncInfo, env: dict, stop_at: Optional[ast.AST] = None) -> dict:
+    """Propagate constants through the straight-line / foldable-branch prefix of
+    fi's body starting from env (parameter bindings).  Names whose assignment
+    cannot be folded are dropped from the environment.  Returns the environment
+    in force when `stop_at` (a statement) is reached, or at the end."""
+    env = dict(env)
+    done = [False]
+
+    def run(stmts):
+        for st in stmts:
+            if done[0]:
+                return
+            if st is stop_at:
+                done[0] = True
+                return
+            if isinstance(st, ast.Assign):
+                try:
+                    v = prog.ix.const_eval(fi.module, st.value, prog._class_ctx(fi), env)
+                    ok = True
+                except (ValueError, TypeError, KeyError, AttributeError, IndexError):
+                    ok = False
+                for t in st.targets:
+                    for nm in A.target_names(t):
+                        if ok and isinstance(t, ast.Name):
+                            env[nm] = v
+                        else:
+                            env.pop(nm, None)
+            elif isinstance(st, (ast.AugAssign, ast.AnnAssign)):
+                for nm in A.target_names(st.target):
+                    env.pop(nm, None)
+            elif isinstance(st, ast.If):
+                try:
+                    tv = prog.ix.const_eval(fi.module, st.test, prog._class_ctx(fi), env)
+                    run(st.body if tv else st.orelse)
+                except (ValueError, TypeError, KeyError, AttributeError, IndexError):
+                    # unknown branch: names assigned in either arm become unknown
+                    if stop_at is not None and any(n is stop_at for b in (st.body, st.orelse) for s in b for n in ast.walk(s)):
+                        run(st.body if any(n is stop_at for s in st.body for n in ast.walk(s)) else st.orelse)
+                        continue
+                    for s in st.body + st.orelse:
+                        for n in ast.walk(s):
+                            if isinstance(n, ast.Name) and isinstance(n.ctx, ast.Store):
+                                env.pop(n.id, None)
+            elif isinstance(st, (ast.For, ast.While, ast.With, ast.Try)):
+                if stop_at is not None and any(n is stop_at for n in ast.walk(st)):
+                    if isinstance(st, ast.For):
+                        for nm in A.target_names(st.target):
+                            env.pop(nm, None)
+                    run(getattr(st, "body", []))
+                    if not done[0]:
+                        run(getattr(st, "orelse", []))
+                    continue
+                for n in ast.walk(st):
+                    if isinstance(n, ast.Name) and isinstance(n.ctx, ast.Store):
+                        env.pop(n.id, None)
+
+    run(fi.node.body)
+    return env
